@@ -565,7 +565,8 @@ def rule_mode_off_dom(db: ProgramDB) -> List[Instance]:
     sm = db.fn("symbolic:symbolic_mode")
     for entry in public_entries(db):
         em = entry_model(db, entry)
-        for rn in em.run_nodes:
+        closing = {id(x) for x in em.close_nodes}
+        for rn in list(em.run_nodes) + list(em.close_nodes):
             stmt = rn.stmt if rn.stmt is not None else rn.ast
             ok = False
             for w in _enclosing_withs(db, stmt):
@@ -578,6 +579,14 @@ def rule_mode_off_dom(db: ProgramDB) -> List[Instance]:
                             if ca == ("const", None):
                                 ok = True
             key = f"{entry.short}[{rn.src()[:60]}]"
+            if id(rn) in closing:
+                out.append(inst("MODE-OFF-DOM", HOLDS if ok else VIOLATION, entry, key,
+                                "the evaluation is closed inside `with symbolic_mode(mode=None)`" if ok else
+                                "closing the evaluation finalises whatever is suspended inside it, user code included (a generator behind a property or used as a domain that "
+                                "keeps a `with symbolic_mode():` block open while it yields): closed in the caller's environment, that block's exit restores the mode it "
+                                "saw at ITS entry - inside the caller's block the mode is switched off by `it.close()` (or the caller's expression context is popped)",
+                                line=rn.lineno))
+                continue
             out.append(inst("MODE-OFF-DOM", HOLDS if ok else VIOLATION, entry, key,
                             "evaluation runs inside `with symbolic_mode(mode=None)`" if ok else
                             "evaluation runs in the ambient mode: inside a symbolic block user predicates and @symbol "
